@@ -225,7 +225,7 @@ def design(ctx, thorough):
     # one always-ready streamer next to TWO streamers whose consumers may stall for good, at the same
     # time: every outlet of a frame's fan-out times out on its own, the ready one gets everything and
     # writers keep going ...
-    mx = design_cast(["w1"], ["s1", "s2", "s3"], [["k2"]], k12, 4, 0)
+    mx = design_cast(["w1"], ["s1", "s2", "s3"], [["k2"]], k12, 3, 0)
     go("mixed", mx, props="WritersProgress ReadyEventually OpenCompletes", deadlock=False, Ready=tla_set(["s1"]),
        CloseModes=tla_set([]), SleepForever="TRUE")
     # ... vacuity: with one timeout budget per frame (timer not re-armed) the relay parks behind the
